@@ -38,7 +38,11 @@ Inductive snap :=
   Sn (ch : id) (parent : option id) (multi : bool) (subs : list id) (arch : list (id * tx))
      (registered : bool) (regver : N) (published : bool) (pubver : N) (done : bool).
 
-Inductive ccase := H (n : N) (steps : list (event * list out)) (final : list snap).
+Inductive hist := H (n : N) (steps : list (event * list out)) (final : list snap).
+
+(* a case is a group of histories (the thorough tier groups the exhaustive words that differ only in their
+   last letter, to keep case indices small) *)
+Definition ccase := list hist.
 
 (* the two set-up prefixes of the exhaustive classes with their observations *)
 Definition p0 : list (event * list out) :=
@@ -137,7 +141,7 @@ Fixpoint replay (s : wstate) (steps : list (event * list out)) : option wstate :
       if list_eqb out_eqb o1 o then replay s1 r else None
   end.
 
-Definition good (c : ccase) : bool :=
+Definition good_hist (c : hist) : bool :=
   match c with
   | H n steps final =>
       match replay init steps with
@@ -145,6 +149,8 @@ Definition good (c : ccase) : bool :=
       | None => false
       end
   end.
+
+Definition good (c : ccase) : bool := forallb good_hist c.
 
 Fixpoint mismatches_from {A} (good : A -> bool) (i : nat) (cs : list A) : list nat :=
   match cs with
